@@ -673,9 +673,9 @@ class KmipEngine(object):
         elif attr_name == 'Object Type':
             return managed_object.object_type
         elif attr_name == 'Cryptographic Algorithm':
-            return managed_object.cryptographic_algorithm
+            return getattr(managed_object, 'cryptographic_algorithm', None)
         elif attr_name == 'Cryptographic Length':
-            return managed_object.cryptographic_length
+            return getattr(managed_object, 'cryptographic_length', None)
         elif attr_name == 'Cryptographic Parameters':
             return None
         elif attr_name == 'Cryptographic Domain Parameters':
